@@ -98,10 +98,10 @@ func cmdCheck(args []string) int {
 		fmt.Fprintf(os.Stderr, "cannot load %s: %v\n", repoDir(), err)
 		return 2
 	}
-	timeout := 40
+	timeout := 60
 	seeds := []int{seed}
 	if *tier == "thorough" {
-		timeout = 120
+		timeout = 150
 		seeds = []int{seed, seed + 1, seed + 2}
 	}
 	if *claimMode {
